@@ -758,11 +758,17 @@ impl ObjHashMap {
 impl GcManaged for ObjHashMap {
     fn mark(&self) {
         self.class.mark();
+        for key in self.elements.keys() {
+            key.mark();
+        }
         self.elements.mark();
     }
 
     fn blacken(&self) {
         self.class.blacken();
+        for key in self.elements.keys() {
+            key.blacken();
+        }
         self.elements.blacken();
     }
 }
